@@ -3,6 +3,9 @@ import DFV.Lemmas.C05Rot
 import DFV.Lemmas.C05Iter
 import DFV.Lemmas.C05Perm
 import DFV.Lemmas.C05RotK
+import DFV.Lemmas.C05Valid
+import DFV.Lemmas.C05Obj
+import DFV.Lemmas.C05ExamplesObj
 /-!
 # C05 — grad, div, curl and Laplacian are the textbook combinations of the derivatives
 
@@ -586,6 +589,70 @@ theorem laplace_accepts (f : Fld) (hdims : DimsOk f) (hpos : 1 ≤ f.mesh.ndim)
       exact ⟨g, e2⟩
 
 
+/-- **Divergence is refused for every mismatch**: a component count different from the number of mesh
+axes, no labels, a label without a mapping entry, or a label mapped onto a name that is no axis of the mesh. -/
+theorem div_refusal (f : Fld)
+    (h : f.nvdim ≠ f.mesh.ndim ∨ f.vdims = none ∨
+      ∃ vs v, f.vdims = some vs ∧ v ∈ vs ∧ ∀ d, Fld.lookup f.vmap v = some d → d ∉ f.mesh.region.dims) :
+    ∃ e, div f = .error e := by
+  cases hd : div f with
+  | error e => exact ⟨e, rfl⟩
+  | ok g =>
+    exfalso
+    obtain ⟨h1, vs, h2, h3⟩ := div_accepts_only f g hd
+    rcases h with h | h | ⟨vs', v, hv', hm, hno⟩
+    · exact h h1
+    · rw [h] at h2; cases h2
+    · rw [hv'] at h2; injection h2 with h2; subst h2
+      obtain ⟨d, hl, hdm⟩ := h3 v hm
+      exact hno d hl hdm
+
+/-- **Curl is refused for every mismatch**: a component count or a mesh dimension other than three, no
+labels, a label not mapped onto an axis, or an axis that no component is mapped onto. -/
+theorem curl_refusal (f : Fld)
+    (h : f.nvdim ≠ 3 ∨ f.mesh.ndim ≠ 3 ∨ f.vdims = none ∨
+      (∃ vs v, f.vdims = some vs ∧ v ∈ vs ∧ ∀ d, Fld.lookup f.vmap v = some d → d ∉ f.mesh.region.dims) ∨
+      ∃ d, d ∈ f.mesh.region.dims ∧ rDimLast f d = none) :
+    ∃ e, curl f = .error e := by
+  cases hd : curl f with
+  | error e => exact ⟨e, rfl⟩
+  | ok g =>
+    exfalso
+    obtain ⟨h1, h1', vs, h2, h3, h4⟩ := curl_accepts_only f g hd
+    rcases h with h | h | h | ⟨vs', v, hv', hm, hno⟩ | ⟨d, hdm, hno⟩
+    · exact h h1
+    · exact h h1'
+    · rw [h] at h2; cases h2
+    · rw [hv'] at h2; injection h2 with h2; subst h2
+      obtain ⟨d, hl, hdm⟩ := h3 v hm
+      exact hno d hl hdm
+    · obtain ⟨l, k, hl, _⟩ := h4 d hdm
+      rw [hno] at hl; cases hl
+
+/-- **Divergence is accepted exactly when the dimensions fit and every component is mapped onto an axis**
+(fields with well-formed labels on a mesh with well-formed axis names): the refusals of `div_refusal`
+are the only ones. -/
+theorem div_accepted_iff (f : Fld) (vs : List String) (hdims : DimsOk f) (hpos : 1 ≤ f.nvdim)
+    (hv : f.vdims = some vs) (hvl : vs.length = f.nvdim) (hvd : hasDup vs = false) :
+    (∃ g, div f = .ok g) ↔
+      f.nvdim = f.mesh.ndim ∧ ∀ v ∈ vs, ∃ d, Fld.lookup f.vmap v = some d ∧ d ∈ f.mesh.region.dims := by
+  constructor
+  · rintro ⟨g, hg⟩
+    obtain ⟨h1, vs', h2, h3⟩ := div_accepts_only f g hg
+    rw [hv] at h2; injection h2 with h2; subst h2
+    exact ⟨h1, h3⟩
+  · rintro ⟨h1, h3⟩
+    have hex : ∀ c, ∃ a, c < f.nvdim → a < f.mesh.ndim ∧
+        Fld.lookup f.vmap (vs.getD c "") = some (f.mesh.region.dims.getD a "") := by
+      intro c
+      by_cases hc : c < f.nvdim
+      · obtain ⟨d, hl, hdm⟩ := h3 _ (getD_mem_of_lt vs c (by omega))
+        obtain ⟨a, ha, rfl⟩ := mem_dims_getD f d hdm
+        exact ⟨a, fun _ => ⟨by rw [← hdims.1]; exact ha, hl⟩⟩
+      · exact ⟨0, fun h => absurd h hc⟩
+    exact div_accepts f vs (fun c => Classical.choose (hex c)) hdims h1 hpos hv hvl hvd
+      (fun c hc => Classical.choose_spec (hex c) hc)
+
 /-! ## 3. Mapping maintenance when labels change; what the results carry -/
 
 /-- **Relabelling keeps the pairing.**  Assigning new component labels to a field that has a
@@ -694,6 +761,78 @@ theorem laplace_keeps_meta (f g : Fld) (vs : List String) (hn : f.nvdim ≠ 1)
   refine ⟨by rw [t5, hv], t6, ?_, ?_⟩
   · intro d; unfold rDimLast; rw [t6]
   · intro l'; unfold Fld.vdimIndex; rw [t5, hv]
+
+/-- **Label spelling is irrelevant for the curl**: relabelling the components of a field whose mapping
+pairs the three components one-to-one with the three axes (`σ` with inverse `ρ`) leaves the curl
+unchanged, component by component at every cell. -/
+theorem curl_relabel (f f' g g' : Fld) (old new : List String) (σ ρ : Nat → Nat) (hdims : DimsOk f)
+    (hold : f.vdims = some old) (hlen : old.length = f.nvdim) (hod : hasDup old = false)
+    (hne : new ≠ []) (hone : OneToOne f.vmap)
+    (hσ : ∀ c, c < f.nvdim → σ c < f.mesh.ndim ∧
+      Fld.lookup f.vmap (old.getD c "") = some (f.mesh.region.dims.getD (σ c) ""))
+    (hinv : ∀ d, d < 3 → ρ d < 3 ∧ σ (ρ d) = d)
+    (hset : setVdims f (some new) = .ok f') (h : curl f = .ok g) (h' : curl f' = .ok g') :
+    ∀ i c, c < 3 → (g'.data.get i).getD c 0 = (g.data.get i).getD c 0 := by
+  obtain ⟨hn3, hnd3, _⟩ := curl_accepts_only f g h
+  have hmap : 0 < f.vmap.length := by
+    have := (hσ 0 (by omega)).2
+    cases hq : f.vmap with
+    | nil => rw [hq] at this; simp [Fld.lookup] at this
+    | cons _ _ => simp
+  obtain ⟨s1, s2, s3, s4, s5, s6, s7⟩ := setVdims_keeps_map f f' old new hold hlen hmap hne hset
+  have hnd : hasDup new = false := by
+    unfold setVdims at hset
+    split at hset
+    · cases hset
+    · rename_i r hr
+      exact (vdimsSet_some hne hr).2.2
+  have hdims' : DimsOk f' := by unfold DimsOk; rw [s3]; exact hdims
+  -- the transported mapping is one-to-one
+  have hone' : OneToOne f'.vmap := by
+    unfold setVdims at hset
+    split at hset
+    · cases hset
+    · rename_i r hr
+      obtain ⟨r1, _, _⟩ := vdimsSet_some hne hr
+      subst r1
+      rw [hold] at hset
+      simp only [] at hset
+      rw [if_pos hmap] at hset
+      split at hset
+      · cases hset
+      · rename_i mp hmp
+        obtain ⟨_, _, _, _, _, _, b7⟩ := setVmap_ok hset
+        rw [vmapSet_some_some b7]
+        exact transportMap_oneToOne f.vmap new old mp hone hod hmp
+  have hρ : ∀ d, d < 3 → ρ d < 3 ∧ rDimLast f (f.mesh.region.dims.getD d "") = some (old.getD (ρ d) "") := by
+    intro d hd
+    obtain ⟨r1, r2⟩ := hinv d hd
+    refine ⟨r1, ?_⟩
+    have := (hσ (ρ d) (by rw [hn3]; exact r1)).2
+    rw [r2] at this
+    exact rDimLast_of_lookup f _ _ hone this
+  have hρ' : ∀ d, d < 3 → ρ d < 3 ∧ rDimLast f' (f'.mesh.region.dims.getD d "") = some (new.getD (ρ d) "") := by
+    intro d hd
+    obtain ⟨r1, r2⟩ := hinv d hd
+    refine ⟨r1, ?_⟩
+    have := (hσ (ρ d) (by rw [hn3]; exact r1)).2
+    rw [r2, ← s7 (ρ d) (by rw [hn3]; exact r1)] at this
+    rw [s3]
+    exact rDimLast_of_lookup f' _ _ hone' this
+  obtain ⟨_, _, _, _, _, e⟩ := curl_eq f g old ρ hdims hold hlen hod hρ h
+  obtain ⟨_, _, _, _, _, e'⟩ := curl_eq f' g' new ρ hdims' s1 (by rw [s2, s6]) hnd hρ' h'
+  have hD : ∀ ax c i, D f' ax 1 c i = D f ax 1 c i := by
+    intro ax c i
+    unfold D periodic NDA.line
+    rw [s3, s4, s5]
+  intro i c hc
+  obtain ⟨a0, a1, a2⟩ := e i
+  obtain ⟨b0, b1, b2⟩ := e' i
+  have : c = 0 ∨ c = 1 ∨ c = 2 := by omega
+  rcases this with rfl | rfl | rfl
+  · rw [a0, b0, hD, hD]
+  · rw [a1, b1, hD, hD]
+  · rw [a2, b2, hD, hD]
 
 /-! ## 4. Exactness on polynomials of degree ≤ 2 (n ≥ 3 per axis, open, fully valid) -/
 
@@ -1353,13 +1492,13 @@ theorem laplace_rot90_quarter (f R L LR RL : Fld) (a b : Nat) (wf : MeshWf f) (h
       rw [D_rot_e f R a b e 0 0 2 1 i hr he hea heb hdata hvalid]
       ring
 
-/-- **The gradient commutes with a quarter turn** (plain scalar field, 2–4 mesh dimensions, every
+/-- **The gradient commutes with a quarter turn** (plain scalar field, EVERY mesh dimension ≥ 2, every
 validity mask, any combination of open and periodic axes in the plane): turning the field and
 differentiating gives, at every cell and for every component, the same number as differentiating
 and then turning the vector field (whose in-plane components are exchanged with the sign of the
 quarter turn). -/
 theorem grad_rot90_quarter (f R G GR RG : Fld) (a b : Nat) (wf : MeshWf f) (hp : Plain f)
-    (hvs : f.valid.shape = f.mesh.n) (ha : a < f.mesh.ndim) (hb : b < f.mesh.ndim) (hab : a ≠ b) (hn4 : f.mesh.ndim ≤ 4)
+    (hvs : f.valid.shape = f.mesh.n) (ha : a < f.mesh.ndim) (hb : b < f.mesh.ndim) (hab : a ≠ b)
     (tw : TurnWf f a b)
     (hR : rot90Fld f (f.mesh.region.dims.getD a "") (f.mesh.region.dims.getD b "") = .ok R)
     (hG : grad f = .ok G) (hGR : grad R = .ok GR)
@@ -1371,7 +1510,7 @@ theorem grad_rot90_quarter (f R G GR RG : Fld) (a b : Nat) (wf : MeshWf f) (hp :
   obtain ⟨_, g2, g3, _, g5⟩ := grad_eq f G wf.dims hG
   have hl2 : 2 ≤ f.mesh.region.dims.length := by rw [wf.dims.1]; exact hn2
   obtain ⟨m1, m2⟩ := grad_meta f G hp hl2 hG
-  obtain ⟨labels, hlab, hlen, hnd⟩ := posVdims_nodup f.mesh.ndim hn2 hn4
+  obtain ⟨labels, hlab, hlen, hnd⟩ := posVdims_nodup f.mesh.ndim hn2
   rw [g2] at m1 m2
   rw [hlab] at m1
   have hvm : G.vmap = List.zip labels G.mesh.region.dims := by
@@ -1728,7 +1867,7 @@ theorem laplace_rot90_defined (f : Fld) (a b : Nat) (wf : MeshWf f) (tw : TurnWf
 
 /-- … and likewise the four fields of `grad_rot90_quarter` -/
 theorem grad_rot90_defined (f : Fld) (a b : Nat) (wf : MeshWf f) (tw : TurnWf f a b) (hsub : f.mesh.subs = []) (hp : Plain f)
-    (ha : a < f.mesh.ndim) (hb : b < f.mesh.ndim) (hab : a ≠ b) (hn4 : f.mesh.ndim ≤ 4) :
+    (ha : a < f.mesh.ndim) (hb : b < f.mesh.ndim) (hab : a ≠ b) :
     ∃ R G GR RG, rot90Fld f (f.mesh.region.dims.getD a "") (f.mesh.region.dims.getD b "") = .ok R ∧
       grad f = .ok G ∧ grad R = .ok GR ∧
       rot90Fld G (G.mesh.region.dims.getD a "") (G.mesh.region.dims.getD b "") = .ok RG := by
@@ -1741,7 +1880,7 @@ theorem grad_rot90_defined (f : Fld) (a b : Nat) (wf : MeshWf f) (tw : TurnWf f 
   obtain ⟨_, g2, g3, _, _⟩ := grad_eq f G wf.dims hG
   have hl2 : 2 ≤ f.mesh.region.dims.length := by rw [wf.dims.1]; exact hn2
   obtain ⟨m1, m2⟩ := grad_meta f G hp hl2 hG
-  obtain ⟨labels, hlab, hlen, hnd⟩ := posVdims_nodup f.mesh.ndim hn2 hn4
+  obtain ⟨labels, hlab, hlen, hnd⟩ := posVdims_nodup f.mesh.ndim hn2
   rw [g2] at m1 m2
   rw [hlab] at m1
   have hvm : G.vmap = List.zip labels G.mesh.region.dims := by
@@ -1932,7 +2071,7 @@ theorem laplace_rot90_iter (f : Fld) (a b n : Nat) (wf : MeshWf f) (tw : TurnWf 
   obtain ⟨R, L, LR, RL, h1, h2, h3, h4, _, _, _, heq⟩ := key
   exact ⟨R, L, LR, RL, h1, h2, h3, h4, fun i hi => heq i hi 0 (by omega)⟩
 
-/-- the gradient of a plain scalar field on a 2–4-d mesh is a vector field on the same mesh with
+/-- the gradient of a plain scalar field on a mesh of any dimension ≥ 2 is a vector field on the same mesh with
 the positional labels, mapped positionally: axis `x` is paired with stored component `x` -/
 theorem grad_result (f G : Fld) (a b : Nat) (labels : List String) (wf : MeshWf f) (hp : Plain f)
     (ha : a < f.mesh.ndim) (hb : b < f.mesh.ndim) (hab : a ≠ b)
@@ -1964,16 +2103,15 @@ theorem grad_result (f G : Fld) (a b : Nat) (labels : List String) (wf : MeshWf 
     by rw [hvm, List.length_zip]; omega, hpair a ha, hpair b hb, by rw [g2]; exact ha, by rw [g2]; exact hb, hab,
     grad_len hl2 hG⟩
 
-/-- **The gradient commutes with any number of quarter turns** (2–4 mesh dimensions, every mask,
+/-- **The gradient commutes with any number of quarter turns** (every mesh dimension ≥ 2, every mask,
 every combination of open and periodic axes in the plane): component by component at every cell -/
 theorem grad_rot90_iter (f : Fld) (a b n : Nat) (wf : MeshWf f) (tw : TurnWf f a b) (hsub : f.mesh.subs = [])
-    (hvs : f.valid.shape = f.mesh.n) (hp : Plain f) (ha : a < f.mesh.ndim) (hb : b < f.mesh.ndim) (hab : a ≠ b)
-    (hn4 : f.mesh.ndim ≤ 4) :
+    (hvs : f.valid.shape = f.mesh.n) (hp : Plain f) (ha : a < f.mesh.ndim) (hb : b < f.mesh.ndim) (hab : a ≠ b) :
     ∃ R G GR RG, rotIter (f.mesh.region.dims.getD a "") (f.mesh.region.dims.getD b "") n f = .ok R ∧ grad f = .ok G ∧
       grad R = .ok GR ∧ rotIter (f.mesh.region.dims.getD a "") (f.mesh.region.dims.getD b "") n G = .ok RG ∧
       ∀ i, InMesh R i → ∀ e, e < f.mesh.ndim → (GR.data.get i).getD e 0 = (RG.data.get i).getD e 0 := by
   have hn2 : 2 ≤ f.mesh.ndim := by omega
-  obtain ⟨labels, hlab, hlen, hnd⟩ := posVdims_nodup f.mesh.ndim hn2 hn4
+  obtain ⟨labels, hlab, hlen, hnd⟩ := posVdims_nodup f.mesh.ndim hn2
   have key := iter_commute grad (f.mesh.region.dims.getD a "") (f.mesh.region.dims.getD b "") f.mesh.ndim
     (fun g => RotOk a b (f.mesh.region.dims.getD a "") (f.mesh.region.dims.getD b "") g ∧ Plain g ∧ g.mesh.ndim = f.mesh.ndim)
     (VecOn a b a b labels)
@@ -1990,7 +2128,7 @@ theorem grad_rot90_iter (f : Fld) (a b n : Nat) (wf : MeshWf f) (tw : TurnWf f a
     (by
       rintro g R G GR RG ⟨hg, pg, ng⟩ hR hG hGR hRG i hi c hc
       obtain ⟨_, _, g3, _, _⟩ := grad_eq g G hg.wf.dims hG
-      exact grad_rot90_quarter g R G GR RG a b hg.wf pg hg.vshape hg.ha hg.hb hab (by rw [ng]; exact hn4) hg.tw
+      exact grad_rot90_quarter g R G GR RG a b hg.wf pg hg.vshape hg.ha hg.hb hab hg.tw
         (by rw [hg.hda, hg.hdb]; exact hR) hG hGR (by rw [g3, hg.hda, hg.hdb]; exact hRG) i hi c (by rw [ng]; exact hc))
     (by rintro g R X ⟨hg, _⟩ hX hR; exact vecOn_rot hab hg hX hR)
     (by
@@ -2360,26 +2498,25 @@ theorem laplace_rot90_all_k (f : Fld) (a b : Nat) (k : Int) (wf : MeshWf f) (tw 
   rw [laplace_congr R' Tg LR' LT hsim (dimsOk_sim' hsim hdR) pR'.1 hLR' hLT i hi.1, heq i (inMesh_sim hsim i hi),
     hres i (by rw [← hnd]; exact hi.1) 0]
 
-/-- **The gradient commutes with `Field.rotate90(ax1, ax2, k)` for every integer `k`** (2–4 mesh
-dimensions, every mask, open and periodic axes), component by component at every cell. -/
+/-- **The gradient commutes with `Field.rotate90(ax1, ax2, k)` for every integer `k`** (every mesh
+dimension ≥ 2, every mask, open and periodic axes), component by component at every cell. -/
 theorem grad_rot90_all_k (f : Fld) (a b : Nat) (k : Int) (wf : MeshWf f) (tw : TurnWf f a b) (hsub : f.mesh.subs = [])
-    (hvs : f.valid.shape = f.mesh.n) (hp : Plain f) (ha : a < f.mesh.ndim) (hb : b < f.mesh.ndim) (hab : a ≠ b)
-    (hn4 : f.mesh.ndim ≤ 4) :
+    (hvs : f.valid.shape = f.mesh.n) (hp : Plain f) (ha : a < f.mesh.ndim) (hb : b < f.mesh.ndim) (hab : a ≠ b) :
     ∃ R G GR RG, rot90FldK f (f.mesh.region.dims.getD a "") (f.mesh.region.dims.getD b "") k = .ok R ∧ grad f = .ok G ∧
       grad R = .ok GR ∧ rot90FldK G (f.mesh.region.dims.getD a "") (f.mesh.region.dims.getD b "") k = .ok RG ∧
       ∀ i, InMesh R i → ∀ e, e < f.mesh.ndim → (GR.data.get i).getD e 0 = (RG.data.get i).getD e 0 := by
   have hn2 : 2 ≤ f.mesh.ndim := by omega
-  obtain ⟨labels, hlab, hlen, hnd'⟩ := posVdims_nodup f.mesh.ndim hn2 hn4
+  obtain ⟨labels, hlab, hlen, hnd'⟩ := posVdims_nodup f.mesh.ndim hn2
   have TC : ∃ Tg G GT TG, targetK (f.mesh.region.dims.getD a "") (f.mesh.region.dims.getD b "") k f = .ok Tg ∧ grad f = .ok G ∧
       grad Tg = .ok GT ∧ targetK (f.mesh.region.dims.getD a "") (f.mesh.region.dims.getD b "") k G = .ok TG ∧
       ∀ i, InMesh Tg i → ∀ e, e < f.mesh.ndim → (GT.data.get i).getD e 0 = (TG.data.get i).getD e 0 := by
     by_cases h3 : k % 4 = 3
     · have tw' := turnWf_symm wf ha hb hab tw
-      obtain ⟨R, G, GR, RG, h1, h2, h4, h5⟩ := grad_rot90_defined f b a wf tw' hsub hp hb ha (Ne.symm hab) hn4
+      obtain ⟨R, G, GR, RG, h1, h2, h4, h5⟩ := grad_rot90_defined f b a wf tw' hsub hp hb ha (Ne.symm hab)
       obtain ⟨_, _, g3, _, _⟩ := grad_eq f G wf.dims h2
       refine ⟨R, G, GR, RG, by rw [targetK_k3 _ _ _ _ h3]; exact h1, h2, h4, by rw [targetK_k3 _ _ _ _ h3, ← g3]; exact h5, ?_⟩
-      exact grad_rot90_quarter f R G GR RG b a wf hp hvs hb ha (Ne.symm hab) hn4 tw' h1 h2 h4 h5
-    · obtain ⟨R, G, GR, RG, h1, h2, h4, h5, h6⟩ := grad_rot90_iter f a b (k % 4).toNat wf tw hsub hvs hp ha hb hab hn4
+      exact grad_rot90_quarter f R G GR RG b a wf hp hvs hb ha (Ne.symm hab) tw' h1 h2 h4 h5
+    · obtain ⟨R, G, GR, RG, h1, h2, h4, h5, h6⟩ := grad_rot90_iter f a b (k % 4).toNat wf tw hsub hvs hp ha hb hab
       exact ⟨R, G, GR, RG, by rw [targetK_eq_iter _ _ _ _ h3]; exact h1, h2, h4, by rw [targetK_eq_iter _ _ _ _ h3]; exact h5, h6⟩
   obtain ⟨Tg, G, GT, TG, hT, hG, hGT, hTG, heq⟩ := TC
   obtain ⟨R', hR', pR', hsim, hnd, hdm⟩ := simK_scalar f Tg a b k wf tw hsub hvs hp ha hb hab hT
@@ -2655,6 +2792,496 @@ theorem curl_perm (f g Cf : Fld) (vs ws : List String) (ρ σg π π' : Nat → 
   · rw [e1, f1]; simp only [key _ _ (by omega : (0:Nat) < 3), key _ _ (by omega : (2:Nat) < 3)]
   · rw [e2, f2]; simp only [key _ _ (by omega : (1:Nat) < 3), key _ _ (by omega : (0:Nat) < 3)]
 
+/-! ## 10. `Field.rotate90(ax1, ax2, k, reference_point, inplace)` at object level: ANY reference point,
+in place or copying, meshes WITH subregions
+
+`T.rotate90F` (`Model/Transform.lean`) is the shared object-level model of `Field.rotate90` that C12 and
+C13 tie to the code: the mesh is turned by `Mesh.rotate90` about the given reference point (default: the
+region centre) through the constructors — subregions turned about the same point and re-validated —,
+values and validity by `np.rot90`, the two paired components by the exact matrix; the in-place form
+assigns, the copying form constructs.  The operators see nothing of the reference point (the edge lengths
+of a turned region do not depend on it: `target_edge_ref`), of the form, or of the subregion list (they
+keep the mesh of their operand): `rotate90_obj_refines_scalar/vector` show that the object-level turn
+cannot be told apart (`Sim`) from C05's centre / copy-form turn `rot90FldK` of the field without its
+subregion list, and the `*_rotate90_obj` theorems lift `*_rot90_all_k` accordingly.  Each of them takes
+the acceptance of the turn of `f` as hypothesis (it depends on the subregion checks of the mesh
+constructor) and proves: the operator accepts `f` and the turned field `g`, the SAME turn (same reference
+point, either form) accepts the result, the receiver of an in-place call IS the returned field, both
+results live on the same mesh — the turned mesh of `g`, subregions included —, and they agree in every
+value and every validity flag at every cell.  Vector fields: one-to-one mapping (`OneToOne`; for these the
+first-key reading `rDim` of the shared model and the code's last-key `_r_dim_mapping` coincide,
+`rDim_eq_rDimLast`). -/
+
+/-- **Refinement of the object-level turn to the centre / copy-form turn, scalar fields.**  Whenever
+`Field.rotate90(ax1, ax2, k, reference_point, inplace)` accepts a plain scalar field (any reference
+point, either form, any subregions), `rot90FldK` accepts the field without its subregion list and the
+two results cannot be told apart by differentiation (`Sim`: same axis names, cell counts, cell sizes,
+periodic directions, labels, mapping, and the same values and validity flags at every well-formed
+multi-index); the receiver of the call is the result (in place) or the untouched field (copying). -/
+theorem rotate90_obj_refines_scalar (f x g : Fld) (a b : Nat) (k : Int) (ref : Option (List Rat)) (inpl : Bool) (wf : MeshWf f)
+    (tw : TurnWf f a b) (hp : Plain f) (ha : a < f.mesh.ndim) (hb : b < f.mesh.ndim) (hab : a ≠ b)
+    (hg : T.rotate90F f (f.mesh.region.dims.getD a "") (f.mesh.region.dims.getD b "") k ref inpl = .ok (x, g)) :
+    ∃ R', rot90FldK (strip f) (f.mesh.region.dims.getD a "") (f.mesh.region.dims.getD b "") k = .ok R' ∧ Sim g R' ∧
+      x = (if inpl then g else f) := by
+  obtain ⟨R', h1, _, _, h4, _, _, h7, _⟩ := simObj_scalar f x g a b k ref inpl wf tw hp ha hb hab hg
+  exact ⟨R', h1, h4, h7⟩
+
+/-- **Refinement of the object-level turn to the centre / copy-form turn, vector fields** (one-to-one
+mapping that pairs the two axes of the plane with the stored components `v1 ≠ v2`). -/
+theorem rotate90_obj_refines_vector (f x g : Fld) (a b v1 v2 : Nat) (vs : List String) (k : Int) (ref : Option (List Rat))
+    (inpl : Bool) (wf : MeshWf f) (tw : TurnWf f a b) (hone : OneToOne f.vmap)
+    (ha : a < f.mesh.ndim) (hb : b < f.mesh.ndim) (hab : a ≠ b) (hn : 1 < f.nvdim)
+    (hv : f.vdims = some vs) (hvl : vs.length = f.nvdim) (hvd : hasDup vs = false)
+    (hkeys : (f.vmap.map (·.1)).isPerm vs = true) (hmap : 0 < f.vmap.length)
+    (hraw : ∀ i, (f.data.get i).length = f.nvdim)
+    (h1 : (rDimLast f (f.mesh.region.dims.getD a "")).bind f.vdimIndex = some v1)
+    (h2 : (rDimLast f (f.mesh.region.dims.getD b "")).bind f.vdimIndex = some v2)
+    (hv1 : v1 < f.nvdim) (hv2 : v2 < f.nvdim) (h12 : v1 ≠ v2)
+    (hg : T.rotate90F f (f.mesh.region.dims.getD a "") (f.mesh.region.dims.getD b "") k ref inpl = .ok (x, g)) :
+    ∃ R', rot90FldK (strip f) (f.mesh.region.dims.getD a "") (f.mesh.region.dims.getD b "") k = .ok R' ∧ Sim g R' ∧
+      x = (if inpl then g else f) := by
+  obtain ⟨R', k1, k2, _, _, _, _, _, k8, _⟩ := simObj_vector f x g a b v1 v2 vs k ref inpl wf tw
+    ⟨hn, hv, hvl, hvd, hkeys, hmap, h1, h2, hv1, hv2, h12, hraw⟩ hone ha hb hab hg
+  exact ⟨R', k1, k2, k8⟩
+
+/-- **In place == copy for `Field.rotate90`**: both forms are accepted on exactly the same inputs and
+return the same field; the receiver is the returned field (in place) or untouched (copying) — no
+hypothesis on the field.  Hence every `*_rotate90_obj` statement about the returned field is a
+statement about the receiver of the in-place call. -/
+theorem rotate90_inplace_eq_copy (f : Fld) (a1 a2 : String) (k : Int) (ref : Option (List Rat)) (b b' : Bool) (x g : Fld)
+    (h : T.rotate90F f a1 a2 k ref b = .ok (x, g)) :
+    T.rotate90F f a1 a2 k ref b' = .ok (if b' then g else f, g) ∧ x = if b then g else f :=
+  rotate90F_form_indep f a1 a2 k ref b b' x g h
+
+/-- **On a mesh without subregions the turn about ANY reference point is accepted** (plain scalar
+fields; every integer `k`, either form, every reference point with one coordinate per axis — inside,
+on or far outside the region): the acceptance hypothesis of the `*_rotate90_obj` theorems is then met,
+so they hold unconditionally for every reference point. -/
+theorem rotate90_obj_accepts_scalar (f : Fld) (a b : Nat) (k : Int) (ref : Option (List Rat)) (inpl : Bool) (wf : MeshWf f)
+    (tw : TurnWf f a b) (hsub : f.mesh.subs = []) (hp : Plain f) (ha : a < f.mesh.ndim) (hb : b < f.mesh.ndim) (hab : a ≠ b)
+    (href : ∀ R, ref = some R → R.length = f.mesh.ndim) :
+    ∃ x g, T.rotate90F f (f.mesh.region.dims.getD a "") (f.mesh.region.dims.getD b "") k ref inpl = .ok (x, g) :=
+  rotate90F_accepts_scalar f a b k ref inpl wf tw hsub hp ha hb hab href
+
+/-- … and likewise for every vector field with a one-to-one mapping that pairs both axes of the plane. -/
+theorem rotate90_obj_accepts_vector (f : Fld) (a b v1 v2 : Nat) (vs : List String) (k : Int) (ref : Option (List Rat))
+    (inpl : Bool) (wf : MeshWf f) (tw : TurnWf f a b) (hsub : f.mesh.subs = []) (hone : OneToOne f.vmap)
+    (ha : a < f.mesh.ndim) (hb : b < f.mesh.ndim) (hab : a ≠ b) (hn : 1 < f.nvdim)
+    (hv : f.vdims = some vs) (hvl : vs.length = f.nvdim) (hvd : hasDup vs = false)
+    (hkeys : (f.vmap.map (·.1)).isPerm vs = true) (hmap : 0 < f.vmap.length)
+    (hraw : ∀ i, (f.data.get i).length = f.nvdim)
+    (h1 : (rDimLast f (f.mesh.region.dims.getD a "")).bind f.vdimIndex = some v1)
+    (h2 : (rDimLast f (f.mesh.region.dims.getD b "")).bind f.vdimIndex = some v2)
+    (hv1 : v1 < f.nvdim) (hv2 : v2 < f.nvdim) (h12 : v1 ≠ v2)
+    (href : ∀ R, ref = some R → R.length = f.mesh.ndim) :
+    ∃ x g, T.rotate90F f (f.mesh.region.dims.getD a "") (f.mesh.region.dims.getD b "") k ref inpl = .ok (x, g) :=
+  rotate90F_accepts_vector f a b v1 v2 vs k ref inpl wf tw hsub ⟨hn, hv, hvl, hvd, hkeys, hmap, h1, h2, hv1, hv2, h12, hraw⟩ hone
+    ha hb hab href
+
+/-- **The scalar Laplacian commutes with `Field.rotate90(ax1, ax2, k, reference_point, inplace)`** —
+ANY reference point, either form (`inpl` for the field, `inpl'` for the result), meshes WITH
+subregions, every integer `k`, every validity mask, every mesh dimension, open and periodic axes. -/
+theorem laplace_rotate90_obj (f x g : Fld) (a b : Nat) (k : Int) (ref : Option (List Rat)) (inpl inpl' : Bool) (wf : MeshWf f)
+    (tw : TurnWf f a b) (hvs : f.valid.shape = f.mesh.n) (hp : Plain f) (ha : a < f.mesh.ndim) (hb : b < f.mesh.ndim) (hab : a ≠ b)
+    (hg : T.rotate90F f (f.mesh.region.dims.getD a "") (f.mesh.region.dims.getD b "") k ref inpl = .ok (x, g)) :
+    ∃ L LR y RL, laplace f = .ok L ∧ laplace g = .ok LR ∧
+      T.rotate90F L (f.mesh.region.dims.getD a "") (f.mesh.region.dims.getD b "") k ref inpl' = .ok (y, RL) ∧
+      x = (if inpl then g else f) ∧ y = (if inpl' then RL else L) ∧ LR.mesh = g.mesh ∧ RL.mesh = g.mesh ∧
+      ∀ i, InMesh g i → RL.valid.get i = LR.valid.get i ∧ (LR.data.get i).getD 0 0 = (RL.data.get i).getD 0 0 := by
+  obtain ⟨R', hR', pR', pg, hsim, nd, dm, hx, gd, gv, ym, hstep⟩ := simObj_scalar f x g a b k ref inpl wf tw hp ha hb hab hg
+  obtain ⟨R0, L0, LR0, RL0, q1, q2, q3, q4, q5⟩ := laplace_rot90_all_k (strip f) a b k (meshWf_strip wf) (turnWf_strip tw) rfl hvs hp ha hb hab
+  have e0 : R0 = R' := by
+    have := q1.symm.trans hR'
+    injection this
+  subst e0
+  obtain ⟨L, hL⟩ := laplace_accepts f wf.dims (by omega) (Or.inl hp)
+  have hgd : DimsOk g := dimsOk_of_eq wf.dims nd dm
+  obtain ⟨LR, hLR⟩ := laplace_accepts g hgd (by rw [nd]; omega) (Or.inl pg)
+  obtain ⟨_, _, lv, _⟩ := laplace_eq_scalar f L wf.dims hp.1 hL
+  obtain ⟨_, lrm, lrv, _⟩ := laplace_eq_scalar g LR hgd pg.1 hLR
+  obtain ⟨y, RL, hRL, rm, ry, rv, hres⟩ := objRes_scalar f L L0 RL0 ym g.mesh a b k ref inpl' wf tw ha hb hab
+    (laplace_scalar_result f L wf hp hL) (laplace_scalar_result (strip f) L0 (meshWf_strip wf) hp q2) hstep q4
+    (fun j hj => laplace_congr f (strip f) L L0 (sim_strip f) (meshWf_strip wf).dims hp.1 hL q2 j hj)
+  refine ⟨L, LR, y, RL, hL, hLR, hRL, hx, ry, lrm, rm, ?_⟩
+  intro i hi
+  have hil : i.length = f.mesh.ndim := by rw [← nd]; exact hi.1
+  refine ⟨objRes_valid f L g RL LR a b k wf hvs ha hb hab lv (laplace_scalar_vshape hp.1 hL) gv rv lrv i hil, ?_⟩
+  rw [laplace_congr g R0 LR LR0 hsim (dimsOk_sim' hsim hgd) pg.1 hLR q3 i hi.1, q5 i (inMesh_sim hsim i hi), hres i hil]
+
+/-- **The gradient commutes with `Field.rotate90(ax1, ax2, k, reference_point, inplace)`** — any
+reference point, either form, subregions, every `k`, every mask, EVERY mesh dimension ≥ 2. -/
+theorem grad_rotate90_obj (f x g : Fld) (a b : Nat) (k : Int) (ref : Option (List Rat)) (inpl inpl' : Bool) (wf : MeshWf f)
+    (tw : TurnWf f a b) (hvs : f.valid.shape = f.mesh.n) (hp : Plain f) (ha : a < f.mesh.ndim) (hb : b < f.mesh.ndim) (hab : a ≠ b)
+    (hg : T.rotate90F f (f.mesh.region.dims.getD a "") (f.mesh.region.dims.getD b "") k ref inpl = .ok (x, g)) :
+    ∃ G GR y RG, grad f = .ok G ∧ grad g = .ok GR ∧
+      T.rotate90F G (f.mesh.region.dims.getD a "") (f.mesh.region.dims.getD b "") k ref inpl' = .ok (y, RG) ∧
+      x = (if inpl then g else f) ∧ y = (if inpl' then RG else G) ∧ GR.mesh = g.mesh ∧ RG.mesh = g.mesh ∧
+      ∀ i, InMesh g i → RG.valid.get i = GR.valid.get i ∧
+        ∀ e, e < f.mesh.ndim → (GR.data.get i).getD e 0 = (RG.data.get i).getD e 0 := by
+  have hn2 : 2 ≤ f.mesh.ndim := by omega
+  obtain ⟨labels, hlab, hlen, hnd'⟩ := posVdims_nodup f.mesh.ndim hn2
+  obtain ⟨R', hR', pR', pg, hsim, nd, dm, hx, gd, gv, ym, hstep⟩ := simObj_scalar f x g a b k ref inpl wf tw hp ha hb hab hg
+  obtain ⟨R0, G0, GR0, RG0, q1, q2, q3, q4, q5⟩ := grad_rot90_all_k (strip f) a b k (meshWf_strip wf) (turnWf_strip tw) rfl hvs hp ha hb hab
+  have e0 : R0 = R' := by
+    have := q1.symm.trans hR'
+    injection this
+  subst e0
+  obtain ⟨G, hG⟩ := grad_accepts f hp wf.dims (by omega)
+  have hgd : DimsOk g := dimsOk_of_eq wf.dims nd dm
+  obtain ⟨GR, hGR⟩ := grad_accepts g pg hgd (by rw [nd]; omega)
+  obtain ⟨_, g2, g3, gvl, _⟩ := grad_eq f G wf.dims hG
+  obtain ⟨_, _, grm, grv, _⟩ := grad_eq g GR hgd hGR
+  have hone : OneToOne G.vmap := by
+    rw [(grad_meta f G hp (by rw [wf.dims.1]; exact hn2) hG).2]
+    exact posVmap_oneToOne _ _ (by rw [g3]; exact wf.dims.2)
+  obtain ⟨y, RG, hRG, rm, ry, rv, hres⟩ := objRes_vector f G G0 RG0 ym g.mesh a b a b labels k ref inpl' wf tw ha hb hab
+    (grad_result f G a b labels wf hp ha hb hab hlab hlen hnd' hG) hone
+    (grad_result (strip f) G0 a b labels (meshWf_strip wf) hp ha hb hab hlab hlen hnd' q2) hstep q4
+    (fun j hj c hc => grad_congr f (strip f) G G0 (sim_strip f) (meshWf_strip wf).dims hG q2 j hj c (by rw [← g2]; exact hc))
+  refine ⟨G, GR, y, RG, hG, hGR, hRG, hx, ry, grm, rm, ?_⟩
+  intro i hi
+  have hil : i.length = f.mesh.ndim := by rw [← nd]; exact hi.1
+  refine ⟨objRes_valid f G g RG GR a b k wf hvs ha hb hab gvl (grad_vshape hG) gv rv grv i hil, ?_⟩
+  intro e he
+  rw [grad_congr g R0 GR GR0 hsim (dimsOk_sim' hsim hgd) hGR q3 i hi.1 e (by rw [nd]; exact he), q5 i (inMesh_sim hsim i hi) e he,
+    hres i hil e (by rw [g2]; exact he)]
+
+/-- **The divergence commutes with `Field.rotate90(ax1, ax2, k, reference_point, inplace)`** — any
+reference point, either form, subregions, every `k`, every mask (one-to-one mapping of the components
+onto the axes). -/
+theorem div_rotate90_obj (f x g : Fld) (a b v1 v2 : Nat) (k : Int) (ref : Option (List Rat)) (inpl inpl' : Bool)
+    (vs : List String) (σ : Nat → Nat)
+    (wf : MeshWf f) (tw : TurnWf f a b) (hvs : f.valid.shape = f.mesh.n)
+    (ha : a < f.mesh.ndim) (hb : b < f.mesh.ndim) (hab : a ≠ b)
+    (hn : 1 < f.nvdim) (hnn : f.nvdim = f.mesh.ndim)
+    (hv : f.vdims = some vs) (hvl : vs.length = f.nvdim) (hvd : hasDup vs = false)
+    (hkeys : (f.vmap.map (·.1)).isPerm vs = true) (hone : OneToOne f.vmap)
+    (hraw : ∀ i, (f.data.get i).length = f.nvdim)
+    (hσ : ∀ c, c < f.nvdim → σ c < f.mesh.ndim ∧
+      Fld.lookup f.vmap (vs.getD c "") = some (f.mesh.region.dims.getD (σ c) ""))
+    (h1 : (rDimLast f (f.mesh.region.dims.getD a "")).bind f.vdimIndex = some v1)
+    (h2 : (rDimLast f (f.mesh.region.dims.getD b "")).bind f.vdimIndex = some v2)
+    (hv1 : v1 < f.nvdim) (hv2 : v2 < f.nvdim) (hs1 : σ v1 = a) (hs2 : σ v2 = b)
+    (hoth : ∀ c, c < f.nvdim → c ≠ v1 → c ≠ v2 → σ c ≠ a ∧ σ c ≠ b)
+    (hg : T.rotate90F f (f.mesh.region.dims.getD a "") (f.mesh.region.dims.getD b "") k ref inpl = .ok (x, g)) :
+    ∃ Dv DR y RD, div f = .ok Dv ∧ div g = .ok DR ∧
+      T.rotate90F Dv (f.mesh.region.dims.getD a "") (f.mesh.region.dims.getD b "") k ref inpl' = .ok (y, RD) ∧
+      x = (if inpl then g else f) ∧ y = (if inpl' then RD else Dv) ∧ DR.mesh = g.mesh ∧ RD.mesh = g.mesh ∧
+      ∀ i, InMesh g i → RD.valid.get i = DR.valid.get i ∧ (DR.data.get i).getD 0 0 = (RD.data.get i).getD 0 0 := by
+  have h12 : v1 ≠ v2 := by intro he; rw [he, hs2] at hs1; exact hab hs1.symm
+  have hmap : 0 < f.vmap.length := by
+    have := (hσ v1 hv1).2
+    cases hq : f.vmap with
+    | nil => rw [hq] at this; simp [Fld.lookup] at this
+    | cons _ _ => simp
+  have hX : VecMeta a b v1 v2 vs f := ⟨hn, hv, hvl, hvd, hkeys, hmap, h1, h2, hv1, hv2, h12, hraw⟩
+  obtain ⟨R', hR', hsim, nd, dm, e1, e2, e3, hx, gv, ym, hstep⟩ := simObj_vector f x g a b v1 v2 vs k ref inpl wf tw hX hone ha hb hab hg
+  obtain ⟨R0, D0, DR0, RD0, q1, q2, q3, q4, q5⟩ := div_rot90_all_k (strip f) a b v1 v2 k vs σ (meshWf_strip wf) (turnWf_strip tw) rfl hvs
+    ha hb hab hn hnn hv hvl hvd hkeys hraw hσ h1 h2 hv1 hv2 hs1 hs2 hoth
+  have e0 : R0 = R' := by
+    have := q1.symm.trans hR'
+    injection this
+  subst e0
+  obtain ⟨Dv, hD⟩ := div_accepts f vs σ wf.dims hnn (by omega) hv hvl hvd hσ
+  have hgd : DimsOk g := dimsOk_of_eq wf.dims nd dm
+  have hσg : ∀ c, c < g.nvdim → σ c < g.mesh.ndim ∧
+      Fld.lookup g.vmap (vs.getD c "") = some (g.mesh.region.dims.getD (σ c) "") := by
+    intro c hc; rw [e1] at hc; rw [nd, e3, dm]; exact hσ c hc
+  obtain ⟨DR, hDR⟩ := div_accepts g vs σ hgd (by rw [e1, nd]; exact hnn) (by rw [e1]; omega) (by rw [e2]; exact hv)
+    (by rw [e1]; exact hvl) hvd hσg
+  obtain ⟨_, _, _, dvl, _⟩ := div_eq f Dv vs σ wf.dims hv hvl hvd hσ hD
+  obtain ⟨_, _, drm, drv, _⟩ := div_eq g DR vs σ hgd (by rw [e2]; exact hv) (by rw [e1]; exact hvl) hvd hσg hDR
+  obtain ⟨y, RD, hRD, rm, ry, rv, hres⟩ := objRes_scalar f Dv D0 RD0 ym g.mesh a b k ref inpl' wf tw ha hb hab
+    (div_result f Dv vs σ wf hv hvl hvd hσ hD) (div_result (strip f) D0 vs σ (meshWf_strip wf) hv hvl hvd hσ q2) hstep q4
+    (fun j hj => div_congr f (strip f) Dv D0 vs σ (sim_strip f) (meshWf_strip wf).dims hv hvl hvd hσ hD q2 j hj)
+  refine ⟨Dv, DR, y, RD, hD, hDR, hRD, hx, ry, drm, rm, ?_⟩
+  intro i hi
+  have hil : i.length = f.mesh.ndim := by rw [← nd]; exact hi.1
+  refine ⟨objRes_valid f Dv g RD DR a b k wf hvs ha hb hab dvl (div_vshape hD) gv rv drv i hil, ?_⟩
+  have hσT : ∀ c, c < R0.nvdim → σ c < R0.mesh.ndim ∧
+      Fld.lookup R0.vmap (vs.getD c "") = some (R0.mesh.region.dims.getD (σ c) "") := by
+    intro c hc; rw [← hsim.nvdim] at hc; rw [← hsim.mesh.1, ← hsim.vmap, ← hsim.mesh.2.1]; exact hσg c hc
+  rw [div_congr g R0 DR DR0 vs σ hsim (dimsOk_sim' hsim hgd) (by rw [← hsim.vdims, e2]; exact hv)
+      (by rw [← hsim.nvdim, e1]; exact hvl) hvd hσT hDR q3 i hi.1,
+    q5 i (inMesh_sim hsim i hi), hres i hil]
+
+/-- **The curl commutes with `Field.rotate90(ax1, ax2, k, reference_point, inplace)`** — any reference
+point, either form, subregions, every `k`, every mask, each of the six ordered pairs of axes
+(one-to-one pairing of the three components with the three axes). -/
+theorem curl_rotate90_obj (f x g : Fld) (a b : Nat) (k : Int) (ref : Option (List Rat)) (inpl inpl' : Bool)
+    (vs : List String) (σ ρ : Nat → Nat)
+    (wf : MeshWf f) (tw : TurnWf f a b) (hvs : f.valid.shape = f.mesh.n)
+    (ha : a < 3) (hb : b < 3) (hab : a ≠ b) (hn : f.nvdim = 3) (hnd : f.mesh.ndim = 3)
+    (hv : f.vdims = some vs) (hvl : vs.length = f.nvdim) (hvd : hasDup vs = false)
+    (hkeys : (f.vmap.map (·.1)).isPerm vs = true) (hone : OneToOne f.vmap)
+    (hraw : ∀ i, (f.data.get i).length = f.nvdim)
+    (hσ : ∀ c, c < 3 → σ c < 3 ∧ Fld.lookup f.vmap (vs.getD c "") = some (f.mesh.region.dims.getD (σ c) ""))
+    (hρ : ∀ d, d < 3 → ρ d < 3 ∧ rDimLast f (f.mesh.region.dims.getD d "") = some (vs.getD (ρ d) ""))
+    (hinj : ρ 0 ≠ ρ 1 ∧ ρ 0 ≠ ρ 2 ∧ ρ 1 ≠ ρ 2)
+    (hg : T.rotate90F f (f.mesh.region.dims.getD a "") (f.mesh.region.dims.getD b "") k ref inpl = .ok (x, g)) :
+    ∃ C CR y RC, curl f = .ok C ∧ curl g = .ok CR ∧
+      T.rotate90F C (f.mesh.region.dims.getD a "") (f.mesh.region.dims.getD b "") k ref inpl' = .ok (y, RC) ∧
+      x = (if inpl then g else f) ∧ y = (if inpl' then RC else C) ∧ CR.mesh = g.mesh ∧ RC.mesh = g.mesh ∧
+      ∀ i, InMesh g i → RC.valid.get i = CR.valid.get i ∧
+        ∀ c, c < 3 → (CR.data.get i).getD c 0 = (RC.data.get i).getD c 0 := by
+  have ha' : a < f.mesh.ndim := by omega
+  have hb' : b < f.mesh.ndim := by omega
+  have hmap : 0 < f.vmap.length := by
+    have := (hσ 0 (by omega)).2
+    cases hq : f.vmap with
+    | nil => rw [hq] at this; simp [Fld.lookup] at this
+    | cons _ _ => simp
+  have hl : ∀ d, d < 3 → ρ d < vs.length := fun d hd => by rw [hvl, hn]; exact (hρ d hd).1
+  have hpair : ∀ d, d < 3 → (rDimLast f (f.mesh.region.dims.getD d "")).bind f.vdimIndex = some (ρ d) := by
+    intro d hd
+    rw [(hρ d hd).2]
+    simp only [Option.bind_some]
+    exact vdimIndex_getD f vs hv hvd (ρ d) (hl d hd)
+  have hρab : ρ a ≠ ρ b := by
+    obtain ⟨h01, h02, h12⟩ := hinj
+    have : (a = 0 ∨ a = 1 ∨ a = 2) ∧ (b = 0 ∨ b = 1 ∨ b = 2) := by omega
+    rcases this with ⟨rfl | rfl | rfl, rfl | rfl | rfl⟩ <;> first | exact absurd rfl hab | assumption | exact Ne.symm ‹_›
+  have hX : VecMeta a b (ρ a) (ρ b) vs f :=
+    ⟨by omega, hv, hvl, hvd, hkeys, hmap, hpair a ha, hpair b hb, by rw [hn]; exact (hρ a ha).1, by rw [hn]; exact (hρ b hb).1,
+     hρab, hraw⟩
+  obtain ⟨R', hR', hsim, nd, dm, e1, e2, e3, hx, gv, ym, hstep⟩ := simObj_vector f x g a b (ρ a) (ρ b) vs k ref inpl wf tw hX hone ha' hb' hab hg
+  obtain ⟨R0, C0, CR0, RC0, q1, q2, q3, q4, q5⟩ := curl_rot90_all_k (strip f) a b k vs σ ρ (meshWf_strip wf) (turnWf_strip tw) rfl hvs
+    ha hb hab hn hnd hv hvl hvd hkeys hraw hσ hρ hinj
+  have e0 : R0 = R' := by
+    have := q1.symm.trans hR'
+    injection this
+  subst e0
+  obtain ⟨C, hC⟩ := curl_accepts f vs σ ρ wf.dims hn hnd hv hvl hvd hσ hρ
+  have hgd : DimsOk g := dimsOk_of_eq wf.dims nd dm
+  have hσg : ∀ c, c < 3 → σ c < 3 ∧ Fld.lookup g.vmap (vs.getD c "") = some (g.mesh.region.dims.getD (σ c) "") := by
+    intro c hc; rw [e3, dm]; exact hσ c hc
+  have hρg : ∀ d, d < 3 → ρ d < 3 ∧ rDimLast g (g.mesh.region.dims.getD d "") = some (vs.getD (ρ d) "") := by
+    intro d hd
+    refine ⟨(hρ d hd).1, ?_⟩
+    have := (hρ d hd).2
+    unfold rDimLast at this ⊢
+    rw [e3, dm]; exact this
+  obtain ⟨CR, hCR⟩ := curl_accepts g vs σ ρ hgd (by rw [e1, hn]) (by rw [nd, hnd]) (by rw [e2]; exact hv) (by rw [e1]; exact hvl) hvd
+    hσg hρg
+  obtain ⟨_, _, c3, c4, cvl, _⟩ := curl_eq f C vs ρ wf.dims hv hvl hvd hρ hC
+  obtain ⟨_, _, _, crm, crv, _⟩ := curl_eq g CR vs ρ hgd (by rw [e2]; exact hv) (by rw [e1]; exact hvl) hvd hρg hCR
+  have honeC : OneToOne C.vmap := by
+    rw [(curl_meta f C hC).2]
+    exact posVmap_oneToOne _ _ wf.dims.2
+  obtain ⟨y, RC, hRC, rm, ry, rv, hres⟩ := objRes_vector f C C0 RC0 ym g.mesh a b a b ["x", "y", "z"] k ref inpl' wf tw ha' hb' hab
+    (curl_result f C a b vs ρ wf ha hb hab hv hvl hvd hρ hC) honeC
+    (curl_result (strip f) C0 a b vs ρ (meshWf_strip wf) ha hb hab hv hvl hvd hρ q2) hstep q4
+    (fun j hj c hc => curl_congr f (strip f) C C0 vs ρ (sim_strip f) (meshWf_strip wf).dims hv hvl hvd hρ hC q2 j hj c (by rw [← c3]; exact hc))
+  refine ⟨C, CR, y, RC, hC, hCR, hRC, hx, ry, crm, rm, ?_⟩
+  intro i hi
+  have hil : i.length = f.mesh.ndim := by rw [← nd]; exact hi.1
+  refine ⟨objRes_valid f C g RC CR a b k wf hvs ha' hb' hab cvl (curl_vshape hC) gv rv crv i hil, ?_⟩
+  intro c hc
+  have hρT : ∀ d, d < 3 → ρ d < 3 ∧ rDimLast R0 (R0.mesh.region.dims.getD d "") = some (vs.getD (ρ d) "") := by
+    intro d hd
+    refine ⟨(hρ d hd).1, ?_⟩
+    have := (hρg d hd).2
+    unfold rDimLast at this ⊢
+    rw [← hsim.vmap, ← hsim.mesh.2.1]; exact this
+  rw [curl_congr g R0 CR CR0 vs ρ hsim (dimsOk_sim' hsim hgd) (by rw [← hsim.vdims, e2]; exact hv)
+      (by rw [← hsim.nvdim, e1]; exact hvl) hvd hρT hCR q3 i hi.1 c hc,
+    q5 i (inMesh_sim hsim i hi) c hc, hres i hil c (by rw [c3]; exact hc)]
+
+/-- **The vector Laplacian commutes with `Field.rotate90(ax1, ax2, k, reference_point, inplace)`** — any
+reference point, either form, subregions, every `k`, every mask (one-to-one mapping that pairs the two
+axes of the plane with two different components). -/
+theorem laplace_vector_rotate90_obj (f x g : Fld) (a b v1 v2 : Nat) (k : Int) (ref : Option (List Rat)) (inpl inpl' : Bool)
+    (vs : List String)
+    (wf : MeshWf f) (tw : TurnWf f a b) (hvs : f.valid.shape = f.mesh.n)
+    (ha : a < f.mesh.ndim) (hb : b < f.mesh.ndim) (hab : a ≠ b) (hn : 1 < f.nvdim)
+    (hv : f.vdims = some vs) (hvl : vs.length = f.nvdim) (hvd : hasDup vs = false)
+    (hkeys : (f.vmap.map (·.1)).isPerm vs = true) (hmap : 0 < f.vmap.length) (hone : OneToOne f.vmap)
+    (hraw : ∀ i, (f.data.get i).length = f.nvdim)
+    (h1 : (rDimLast f (f.mesh.region.dims.getD a "")).bind f.vdimIndex = some v1)
+    (h2 : (rDimLast f (f.mesh.region.dims.getD b "")).bind f.vdimIndex = some v2)
+    (hv1 : v1 < f.nvdim) (hv2 : v2 < f.nvdim) (h12 : v1 ≠ v2)
+    (hg : T.rotate90F f (f.mesh.region.dims.getD a "") (f.mesh.region.dims.getD b "") k ref inpl = .ok (x, g)) :
+    ∃ L LR y RL, laplace f = .ok L ∧ laplace g = .ok LR ∧
+      T.rotate90F L (f.mesh.region.dims.getD a "") (f.mesh.region.dims.getD b "") k ref inpl' = .ok (y, RL) ∧
+      x = (if inpl then g else f) ∧ y = (if inpl' then RL else L) ∧ LR.mesh = g.mesh ∧ RL.mesh = g.mesh ∧
+      ∀ i, InMesh g i → RL.valid.get i = LR.valid.get i ∧
+        ∀ c, c < f.nvdim → (LR.data.get i).getD c 0 = (RL.data.get i).getD c 0 := by
+  have hX : VecMeta a b v1 v2 vs f := ⟨hn, hv, hvl, hvd, hkeys, hmap, h1, h2, hv1, hv2, h12, hraw⟩
+  have hn1 : f.nvdim ≠ 1 := by omega
+  obtain ⟨R', hR', hsim, nd, dm, e1, e2, e3, hx, gv, ym, hstep⟩ := simObj_vector f x g a b v1 v2 vs k ref inpl wf tw hX hone ha hb hab hg
+  obtain ⟨R0, L0, LR0, RL0, q1, q2, q3, q4, q5⟩ := laplace_rot90_vector_all_k (strip f) a b v1 v2 k vs (meshWf_strip wf) (turnWf_strip tw) rfl hvs
+    ha hb hab hn hv hvl hvd hkeys hmap hraw h1 h2 hv1 hv2 h12
+  have e0 : R0 = R' := by
+    have := q1.symm.trans hR'
+    injection this
+  subst e0
+  obtain ⟨L, hL⟩ := laplace_accepts f wf.dims (by omega) (Or.inr ⟨hn, vs, hv, hvl, hvd, Or.inr hkeys⟩)
+  have hgd : DimsOk g := dimsOk_of_eq wf.dims nd dm
+  obtain ⟨LR, hLR⟩ := laplace_accepts g hgd (by rw [nd]; omega)
+    (Or.inr ⟨by rw [e1]; exact hn, vs, by rw [e2]; exact hv, by rw [e1]; exact hvl, hvd, Or.inr (by rw [e3]; exact hkeys)⟩)
+  obtain ⟨l1, _, lv, _⟩ := laplace_eq_vector f L vs wf.dims hn1 hv hvl hvd hL
+  obtain ⟨_, lrm, lrv, _⟩ := laplace_eq_vector g LR vs hgd (by rw [e1]; exact hn1) (by rw [e2]; exact hv) (by rw [e1]; exact hvl) hvd hLR
+  have honeL : OneToOne L.vmap := by
+    rw [(laplace_keeps_meta f L vs hn1 hv hvl hL).2.1]; exact hone
+  obtain ⟨y, RL, hRL, rm, ry, rv, hres⟩ := objRes_vector f L L0 RL0 ym g.mesh a b v1 v2 vs k ref inpl' wf tw ha hb hab
+    (laplace_vector_result f L a b v1 v2 vs wf hX hL) honeL
+    (laplace_vector_result (strip f) L0 a b v1 v2 vs (meshWf_strip wf) (vecMeta_strip hX) q2) hstep q4
+    (fun j hj c hc => laplace_vector_congr f (strip f) L L0 vs (sim_strip f) (meshWf_strip wf).dims hn1 hv hvl hvd hL q2 j hj c
+      (by rw [l1] at hc; exact hc))
+  refine ⟨L, LR, y, RL, hL, hLR, hRL, hx, ry, lrm, rm, ?_⟩
+  intro i hi
+  have hil : i.length = f.mesh.ndim := by rw [← nd]; exact hi.1
+  refine ⟨objRes_valid f L g RL LR a b k wf hvs ha hb hab lv (laplace_vector_vshape (by omega) hv hvl hL) gv rv lrv i hil, ?_⟩
+  intro c hc
+  rw [laplace_vector_congr g R0 LR LR0 vs hsim (dimsOk_sim' hsim hgd) (by rw [← hsim.nvdim, e1]; exact hn1)
+      (by rw [← hsim.vdims, e2]; exact hv) (by rw [← hsim.nvdim, e1]; exact hvl) hvd hLR q3 i hi.1 c
+      (by rw [← hsim.nvdim, e1]; exact hc),
+    q5 i (inMesh_sim hsim i hi) c hc, hres i hil c (by rw [l1]; exact hc)]
+
+/-! ## 11. When is `TurnWf` needed?  Only for planes with a periodic axis (finding D57) -/
+
+/-- **`TurnWf` is only about periodic planes**: when neither axis of the plane is a periodic direction,
+the hypothesis `TurnWf` of all commutation theorems holds — whatever the axis names (multi-character
+names included: `Mesh.rotate90` then leaves `bc` alone, and nothing had to turn) and whatever `bc`
+names otherwise. -/
+theorem turnWf_of_open_plane (f : Fld) (a b : Nat) (wf : MeshWf f) (pa : periodic f a = false) (pb : periodic f b = false) :
+    TurnWf f a b := by
+  have e : rotBc1 f.mesh.bc (f.mesh.region.dims.getD a "") (f.mesh.region.dims.getD b "") = f.mesh.bc :=
+    rotBc1_of_open_plane f a b pa pb
+  exact ⟨Or.inr (pa.trans pb.symm), by rw [e]; exact wf.bc_lower, by rw [e]; exact wf.bc_ok⟩
+
+/-- … in particular on every mesh without boundary conditions (`bc = ""`), for every plane -/
+theorem turnWf_of_no_bc (f : Fld) (a b : Nat) (wf : MeshWf f) (h : f.mesh.bc = "") : TurnWf f a b := by
+  have hp : ∀ x, periodic f x = false := by
+    intro x; exact periodic_false_of_noswap_word f x (Or.inr (Or.inr h))
+  exact turnWf_of_open_plane f a b wf (hp a) (hp b)
+
+/-- **`TurnWf` cannot be dropped for a periodic plane with a multi-character axis name (open finding
+D57, model-follows-code).**  On the 4×3 mesh with axes `x` (periodic) and `yy`, `Mesh.rotate90` leaves
+`bc = "x"` with the NAME although the periodic direction is now `yy`; all other hypotheses of
+`laplace_rot90_all_k` hold, all four fields exist, and the two sides differ (2 vs 10 at cell `[0, 0]`;
+the real code returns the same two numbers). -/
+theorem turnWf_needed :
+    MeshWf exS57 ∧ Plain exS57 ∧ FullyValid exS57 ∧ ¬ BcTurns exS57 0 1 ∧
+    ∃ R L LR RL, rot90FldK exS57 "x" "yy" 1 = .ok R ∧ laplace exS57 = .ok L ∧ laplace R = .ok LR ∧
+      rot90FldK L "x" "yy" 1 = .ok RL ∧ R.mesh.bc = "x" ∧
+      (LR.data.get [0, 0]).getD 0 0 = 2 ∧ (RL.data.get [0, 0]).getD 0 0 = 10 := by
+  refine ⟨exS57_wf, ⟨rfl, rfl, rfl⟩, fun _ => rfl, ?_, ?_⟩
+  · intro h
+    rcases h with ⟨_, h2, _, _⟩ | h
+    · revert h2; decide
+    · revert h; decide
+  · have h := chk57_val
+    unfold chk57 at h
+    split at h
+    · rename_i R L hR hL
+      split at h
+      · rename_i LR RL hLR hRL
+        injection h with h
+        injection h with h1 h2
+        refine ⟨R, L, LR, RL, hR, hL, hLR, hRL, ?_, h1, h2⟩
+        have hm : ∃ m, rotMeshK exS57.mesh "x" "yy" 1 = .ok m ∧ m.bc = "x" := by
+          obtain ⟨m, hq⟩ := ok_of_toBool (r := rotMeshK exS57.mesh "x" "yy" 1) (by decide +kernel)
+          obtain ⟨_, _, hb⟩ := rotMeshK_inv exS57.mesh m 0 1 1 (by decide) (by decide) (by decide) hq
+          exact ⟨m, hq, by rw [hb]; decide +kernel⟩
+        obtain ⟨m, hm1, hm2⟩ := hm
+        obtain ⟨X', hX', hxm, _⟩ := rot90FldK_plain exS57 0 1 1 m exS57_wf.dims ⟨rfl, rfl, rfl⟩ (by decide) (by decide) hm1
+        have : X' = R := by
+          have := hX'.symm.trans hR
+          injection this
+        rw [← this, hxm, hm2]
+      · cases h
+    · cases h
+
+/-- **Since repo fix be43fa9b `TurnWf` is nothing more than `BcTurns`** on a well-formed mesh: the turned
+`bc` is always one the `Mesh` constructor accepts unchanged (lower case, naming axes once each), because
+names are only exchanged when both are lower-case single characters.  Before the fix an upper-case
+single-character name (axes `x`, `Y`, `bc = "x"`) made `Mesh.rotate90` hand the constructor `bc = "Y"`,
+which it lower-cased and refused; now such a turn is accepted with `bc` left alone — and falls into the
+class of open finding D57 (`turnWf_needed_upper`). -/
+theorem turnWf_of_bcTurns (f : Fld) (a b : Nat) (wf : MeshWf f) (ha : a < f.mesh.ndim) (hb : b < f.mesh.ndim) (hab : a ≠ b)
+    (h : BcTurns f a b) : TurnWf f a b :=
+  ⟨h, (rotBc1_wf f a b wf ha hb hab).1, (rotBc1_wf f a b wf ha hb hab).2⟩
+
+/-- **On a `neumann` or `dirichlet` mesh no axis is periodic, whatever its name** (repo fix 61bf94db; before,
+`Field.diff` read the letters of the word as axis names: an axis `n`, `e`, `u`, `m`, `a`, `ma`, … of a
+`neumann` mesh was differentiated with wrap-around). -/
+theorem periodic_word_open (f : Fld) (ax : Nat) (h : f.mesh.bc = "neumann" ∨ f.mesh.bc = "dirichlet") :
+    periodic f ax = false :=
+  periodic_false_of_noswap_word f ax (by rcases h with h | h; exact Or.inl h; exact Or.inr (Or.inl h))
+
+/-- **An axis with a multi-character name is never periodic** (also when its name is a substring of `bc`,
+like the axis `xy` of a mesh periodic along `x` and `y`). -/
+theorem periodic_multichar_open (f : Fld) (ax : Nat) (h : (f.mesh.region.dims.getD ax "").toList.length ≠ 1) :
+    periodic f ax = false := by
+  rw [periodic_eq_perL]
+  have : perL f.mesh.bc (f.mesh.region.dims.getD ax "") = false := by
+    unfold perL
+    rw [List.any_eq_false]
+    intro ch _
+    simp only [decide_eq_true_eq]
+    intro e
+    rw [← e] at h
+    exact h rfl
+  rw [this]; simp
+
+/-- **A periodic axis has a lower-case single-character name** (the mesh lower-cases `bc`): the lower-case
+requirement of `BcTurns` only ever concerns the non-periodic axis of a mixed plane. -/
+theorem periodic_name_lower (f : Fld) (ax : Nat) (wf : MeshWf f) (h : periodic f ax = true) :
+    (f.mesh.region.dims.getD ax "").toList.length = 1 ∧
+    (f.mesh.region.dims.getD ax "").toLower = f.mesh.region.dims.getD ax "" := by
+  rw [periodic_eq_perL] at h
+  simp only [Bool.and_eq_true] at h
+  obtain ⟨_, hp⟩ := h
+  unfold perL at hp
+  rw [List.any_eq_true] at hp
+  obtain ⟨ch, hm, he⟩ := hp
+  have he' : [ch] = (f.mesh.region.dims.getD ax "").toList := by simpa using he
+  refine ⟨by rw [← he']; rfl, ?_⟩
+  rw [lower_iff, ← he']
+  intro c hc
+  have : c = ch := by simpa using hc
+  rw [this]
+  exact (lower_iff _).mp wf.bc_lower ch hm
+
+/-- **On a `neumann` / `dirichlet` mesh every plane may be turned**: `TurnWf` holds for all axes, whatever
+their names — all commutation theorems apply. -/
+theorem turnWf_of_word_bc (f : Fld) (a b : Nat) (wf : MeshWf f) (h : f.mesh.bc = "neumann" ∨ f.mesh.bc = "dirichlet") :
+    TurnWf f a b :=
+  turnWf_of_open_plane f a b wf (periodic_word_open f a h) (periodic_word_open f b h)
+
+/-- **The exactness theorems apply to every fully valid `neumann` / `dirichlet` mesh with at least three
+cells per axis, whatever the axes are called**: `ExactMesh` (hypothesis of `*_exact_quadratic`) holds. -/
+theorem exactMesh_of_word (f : Fld) (hv : FullyValid f) (h : f.mesh.bc = "neumann" ∨ f.mesh.bc = "dirichlet")
+    (hn : ∀ a, a < f.mesh.ndim → 3 ≤ f.mesh.nAt a ∧ f.mesh.cellAt a ≠ 0) : ExactMesh f :=
+  ⟨hv, fun a ha => ⟨periodic_word_open f a h, hn a ha⟩⟩
+
+/-- **`TurnWf` cannot be dropped for a periodic plane whose other axis has an upper-case name either**
+(same root as open finding D57: `bc` can only name lower-case single-character axes).  On the 4×3 mesh
+with axes `x` (periodic) and `Y` the turn is accepted since repo fix be43fa9b, `bc = "x"` stays with the
+name, and the two sides differ (2 vs 10 at cell `[0, 0]`; the real code returns the same two numbers). -/
+theorem turnWf_needed_upper :
+    MeshWf exS57U ∧ Plain exS57U ∧ FullyValid exS57U ∧ ¬ BcTurns exS57U 0 1 ∧
+    ∃ R L LR RL, rot90FldK exS57U "x" "Y" 1 = .ok R ∧ laplace exS57U = .ok L ∧ laplace R = .ok LR ∧
+      rot90FldK L "x" "Y" 1 = .ok RL ∧
+      (LR.data.get [0, 0]).getD 0 0 = 2 ∧ (RL.data.get [0, 0]).getD 0 0 = 10 := by
+  refine ⟨exS57U_wf, ⟨rfl, rfl, rfl⟩, fun _ => rfl, ?_, ?_⟩
+  · intro h
+    rcases h with ⟨_, _, _, h4⟩ | h
+    · revert h4; decide +kernel
+    · revert h; decide
+  · have h := chk57U_val
+    unfold chk57U at h
+    split at h
+    · rename_i R L hR hL
+      split at h
+      · rename_i LR RL hLR hRL
+        injection h with h
+        injection h with h1 h2
+        exact ⟨R, L, LR, RL, hR, hL, hLR, hRL, h1, h2⟩
+      · cases h
+    · cases h
+
 /-! ## Non-vacuity: concrete fields that meet the hypotheses
 
 (`exS`, `exV`, `exMesh`, … are defined in `DFV/Lemmas/C05Examples.lean`) -/
@@ -2724,7 +3351,7 @@ example : periodic exSP 0 = true ∧ periodic exSP 1 = false ∧ MeshWf exSP ∧
 example : ∃ R G GR RG, rot90Fld exSP (exSP.mesh.region.dims.getD 0 "") (exSP.mesh.region.dims.getD 2 "") = .ok R ∧
       grad exSP = .ok G ∧ grad R = .ok GR ∧
       rot90Fld G (G.mesh.region.dims.getD 0 "") (G.mesh.region.dims.getD 2 "") = .ok RG :=
-  grad_rot90_defined exSP 0 2 exSP_wf exSP_tw02 rfl ⟨rfl, rfl, rfl⟩ (by decide) (by decide) (by decide) (by decide)
+  grad_rot90_defined exSP 0 2 exSP_wf exSP_tw02 rfl ⟨rfl, rfl, rfl⟩ (by decide) (by decide) (by decide)
 
 /-- … and those of `div_rot90_quarter` for the permuted field `exV` (plane of axes 0 and 1, which
 `exV` pairs with its stored components 1 and 2) -/
@@ -2760,7 +3387,7 @@ example : ∃ R G GR RG, rotIter (exSM.mesh.region.dims.getD 0 "") (exSM.mesh.re
     grad exSM = .ok G ∧ grad R = .ok GR ∧
     rotIter (exSM.mesh.region.dims.getD 0 "") (exSM.mesh.region.dims.getD 2 "") 7 G = .ok RG ∧
     ∀ i, InMesh R i → ∀ e, e < exSM.mesh.ndim → (GR.data.get i).getD e 0 = (RG.data.get i).getD e 0 :=
-  grad_rot90_iter exSM 0 2 7 exSM_wf exSM_tw02 rfl rfl ⟨rfl, rfl, rfl⟩ (by decide) (by decide) (by decide) (by decide)
+  grad_rot90_iter exSM 0 2 7 exSM_wf exSM_tw02 rfl rfl ⟨rfl, rfl, rfl⟩ (by decide) (by decide) (by decide)
 
 /-- `div_perm` and `curl_perm` are not vacuous: `exVp` stores the components of `exV` in the order
 `r, p, q` under the labels `u, v, w` with the mapping carried along -/
@@ -2841,5 +3468,105 @@ example : exSO.valid.get [3, 2, 4] = false ∧ ExactAt exSO [1, 1, 3] := by
     simp [Mesh.cellAt, Mesh.nAt, exSO, exS, exMesh, Region.edge, Region.hi, Region.lo]
   · refine ⟨by decide, ?_, by decide, by decide⟩
     simp [Mesh.cellAt, Mesh.nAt, exSO, exS, exMesh, Region.edge, Region.hi, Region.lo]
+
+/-! ### non-vacuity of sections 10 and 11 (`exSub`, `exSMs`, `exVMs`, `exSmc`, `exS57` are defined in
+`DFV/Lemmas/C05ExamplesObj.lean`) -/
+
+/-- `laplace_rotate90_obj`: the masked scalar field `exSMs` — periodic along `a`, on a mesh WITH a
+subregion — turned IN PLACE by `k = -3` in the plane of axes 0 and 2 about the reference point
+`(1, 2, 3)`; the result of the Laplacian is turned in the copying form -/
+example : exSMs.mesh.subs ≠ [] ∧ ∃ x g L LR y RL, T.rotate90F exSMs "a" "c" (-3) (some [1, 2, 3]) true = .ok (x, g) ∧
+    laplace exSMs = .ok L ∧ laplace g = .ok LR ∧ T.rotate90F L "a" "c" (-3) (some [1, 2, 3]) false = .ok (y, RL) ∧
+    x = g ∧ y = L ∧ LR.mesh = RL.mesh := by
+  obtain ⟨x, g, h⟩ := exSMs_rot
+  obtain ⟨L, LR, y, RL, h1, h2, h3, h4, h5, h6, h7, _⟩ := laplace_rotate90_obj exSMs x g 0 2 (-3) (some [1, 2, 3]) true false
+    exSMs_wf exSMs_tw02 rfl ⟨rfl, rfl, rfl⟩ (by decide) (by decide) (by decide) h
+  exact ⟨by decide, x, g, L, LR, y, RL, h, h1, h2, h3, by simpa using h4, by simpa using h5, by rw [h6, h7]⟩
+
+/-- … `grad_rotate90_obj` for the same call -/
+example : ∃ x g G GR y RG, T.rotate90F exSMs "a" "c" (-3) (some [1, 2, 3]) true = .ok (x, g) ∧
+    grad exSMs = .ok G ∧ grad g = .ok GR ∧ T.rotate90F G "a" "c" (-3) (some [1, 2, 3]) true = .ok (y, RG) ∧ y = RG := by
+  obtain ⟨x, g, h⟩ := exSMs_rot
+  obtain ⟨G, GR, y, RG, h1, h2, h3, _, h5, _⟩ := grad_rotate90_obj exSMs x g 0 2 (-3) (some [1, 2, 3]) true true
+    exSMs_wf exSMs_tw02 rfl ⟨rfl, rfl, rfl⟩ (by decide) (by decide) (by decide) h
+  exact ⟨x, g, G, GR, y, RG, h, h1, h2, h3, by simpa using h5⟩
+
+/-- … `curl_rotate90_obj` / `div_rotate90_obj` / `laplace_vector_rotate90_obj`: the masked, permuted vector field
+`exVMs` on the mesh with a subregion, copying form, `k = 5`, plane of axes 2 and 0, reference point `(1/2, 2, -3)`
+outside the region; the mapping of `exVMs` is one-to-one -/
+example : OneToOne exVMs.vmap := by unfold OneToOne; decide
+
+example : ∃ x g C CR y RC, T.rotate90F exVMs "c" "a" 5 (some [1/2, 2, -3]) false = .ok (x, g) ∧
+    curl exVMs = .ok C ∧ curl g = .ok CR ∧ T.rotate90F C "c" "a" 5 (some [1/2, 2, -3]) false = .ok (y, RC) := by
+  obtain ⟨x, g, h⟩ := exVMs_rot
+  obtain ⟨C, CR, y, RC, h1, h2, h3, _⟩ := curl_rotate90_obj exVMs x g 2 0 5 (some [1/2, 2, -3]) false false ["p", "q", "r"] exσ exρ
+    exVMs_wf (exVMs_tw 2 0) rfl (by decide) (by decide) (by decide) rfl rfl rfl rfl (by decide) (by decide) (by unfold OneToOne; decide)
+    (fun _ => rfl) (fun c hc => exV_σ c hc) exV_ρ (by decide) h
+  exact ⟨x, g, C, CR, y, RC, h, h1, h2, h3⟩
+
+example : ∃ x g Dv DR y RD, T.rotate90F exVMs "c" "a" 5 (some [1/2, 2, -3]) false = .ok (x, g) ∧
+    div exVMs = .ok Dv ∧ div g = .ok DR ∧ T.rotate90F Dv "c" "a" 5 (some [1/2, 2, -3]) true = .ok (y, RD) := by
+  obtain ⟨x, g, h⟩ := exVMs_rot
+  obtain ⟨Dv, DR, y, RD, h1, h2, h3, _⟩ := div_rotate90_obj exVMs x g 2 0 0 1 5 (some [1/2, 2, -3]) false true ["p", "q", "r"] exσ
+    exVMs_wf (exVMs_tw 2 0) rfl (by decide) (by decide) (by decide) (by decide) rfl rfl rfl (by decide) (by decide)
+    (by unfold OneToOne; decide) (fun _ => rfl) exV_σ (by decide) (by decide) (by decide) (by decide) rfl rfl
+    (by
+      intro c hc h1 h2
+      have : c = 2 := by unfold exVMs exVM exV at hc; simp at hc; omega
+      subst this; decide) h
+  exact ⟨x, g, Dv, DR, y, RD, h, h1, h2, h3⟩
+
+example : ∃ x g L LR y RL, T.rotate90F exVMs "c" "a" 5 (some [1/2, 2, -3]) false = .ok (x, g) ∧
+    laplace exVMs = .ok L ∧ laplace g = .ok LR ∧ T.rotate90F L "c" "a" 5 (some [1/2, 2, -3]) false = .ok (y, RL) := by
+  obtain ⟨x, g, h⟩ := exVMs_rot
+  obtain ⟨L, LR, y, RL, h1, h2, h3, _⟩ := laplace_vector_rotate90_obj exVMs x g 2 0 0 1 5 (some [1/2, 2, -3]) false false ["p", "q", "r"]
+    exVMs_wf (exVMs_tw 2 0) rfl (by decide) (by decide) (by decide) (by decide) rfl rfl (by decide) (by decide) (by decide)
+    (by unfold OneToOne; decide) (fun _ => rfl) (by decide) (by decide) (by decide) (by decide) (by decide) h
+  exact ⟨x, g, L, LR, y, RL, h, h1, h2, h3⟩
+
+/-- `turnWf_of_open_plane`: on `exSmc` (axes `x`, `yy`, `zeta`, periodic along `x`) the plane of the two
+multi-character axes is open, so every commutation theorem applies to it -/
+example : periodic exSmc 0 = true ∧ TurnWf exSmc 1 2 ∧
+    ∃ R G GR RG, rot90FldK exSmc (exSmc.mesh.region.dims.getD 1 "") (exSmc.mesh.region.dims.getD 2 "") 3 = .ok R ∧ grad exSmc = .ok G ∧
+      grad R = .ok GR ∧ rot90FldK G (exSmc.mesh.region.dims.getD 1 "") (exSmc.mesh.region.dims.getD 2 "") 3 = .ok RG := by
+  have tw := turnWf_of_open_plane exSmc 1 2 exSmc_wf (by decide) (by decide)
+  obtain ⟨R, G, GR, RG, h1, h2, h3, h4, _⟩ := grad_rot90_all_k exSmc 1 2 3 exSmc_wf tw rfl rfl ⟨rfl, rfl, rfl⟩ (by decide) (by decide) (by decide)
+  exact ⟨by decide, tw, R, G, GR, RG, h1, h2, h3, h4⟩
+
+/-- `curl_relabel` / `div_accepted_iff` / `div_refusal` / `curl_refusal` are not vacuous: `exV` is relabelled
+(`exσ` and `exρ` are mutually inverse), `div exV` is accepted, and the scalar field `exS` is refused by both -/
+example : (∀ d, d < 3 → exρ d < 3 ∧ exσ (exρ d) = d) ∧ (∃ f', setVdims exV (some ["u", "v", "w"]) = .ok f') ∧
+    (∃ e, div exS = .error e) ∧ (∃ e, curl exS = .error e) :=
+  ⟨by decide, ⟨_, rfl⟩, div_refusal exS (Or.inl (by decide)), curl_refusal exS (Or.inl (by decide))⟩
+
+/-- `rotate90_obj_accepts_scalar` + `grad_rotate90_obj`: on the subregion-free masked field `exSM` the turn by `k = 6`
+about the far-away reference point `(100, -7, 1/3)` is accepted in place, and the gradient commutes with it -/
+example : ∃ x g G GR y RG, T.rotate90F exSM "a" "c" 6 (some [100, -7, 1/3]) true = .ok (x, g) ∧ grad exSM = .ok G ∧
+    grad g = .ok GR ∧ T.rotate90F G "a" "c" 6 (some [100, -7, 1/3]) true = .ok (y, RG) := by
+  obtain ⟨x, g, h⟩ := rotate90_obj_accepts_scalar exSM 0 2 6 (some [100, -7, 1/3]) true exSM_wf exSM_tw02 rfl ⟨rfl, rfl, rfl⟩
+    (by decide) (by decide) (by decide) (by intro R hR; injection hR with hR; subst hR; rfl)
+  obtain ⟨G, GR, y, RG, h1, h2, h3, _⟩ := grad_rotate90_obj exSM x g 0 2 6 (some [100, -7, 1/3]) true true
+    exSM_wf exSM_tw02 rfl ⟨rfl, rfl, rfl⟩ (by decide) (by decide) (by decide) h
+  exact ⟨x, g, G, GR, y, RG, h, h1, h2, h3⟩
+
+/-- `periodic_word_open` / `turnWf_of_word_bc` / `exactMesh_of_word`: on `exSN` (axes `n`, `y`, `bc = "neumann"`) the axis
+`n` is open although `"n"` occurs in `"neumann"`, and the plane may be turned -/
+example : exSN.mesh.bc = "neumann" ∧ exSN.mesh.region.dims = ["n", "y"] ∧ periodic exSN 0 = false ∧ TurnWf exSN 0 1 ∧
+    ∃ R L LR RL, rot90FldK exSN (exSN.mesh.region.dims.getD 0 "") (exSN.mesh.region.dims.getD 1 "") 1 = .ok R ∧ laplace exSN = .ok L ∧
+      laplace R = .ok LR ∧ rot90FldK L (exSN.mesh.region.dims.getD 0 "") (exSN.mesh.region.dims.getD 1 "") 1 = .ok RL := by
+  have tw := turnWf_of_word_bc exSN 0 1 exSN_wf (Or.inl rfl)
+  obtain ⟨R, L, LR, RL, h1, h2, h3, h4, _⟩ := laplace_rot90_all_k exSN 0 1 1 exSN_wf tw rfl rfl ⟨rfl, rfl, rfl⟩ (by decide) (by decide) (by decide)
+  exact ⟨rfl, rfl, periodic_word_open exSN 0 (Or.inl rfl), tw, R, L, LR, RL, h1, h2, h3, h4⟩
+
+/-- `periodic_multichar_open` / `periodic_name_lower`: on `exSXY` (axes `x`, `y`, `xy`, `bc = "xy"`) the axes `x`, `y` are
+periodic, the axis `xy` is not -/
+example : periodic exSXY 0 = true ∧ periodic exSXY 1 = true ∧ periodic exSXY 2 = false ∧
+    (exSXY.mesh.region.dims.getD 2 "").toList.length ≠ 1 :=
+  ⟨by decide, by decide, periodic_multichar_open exSXY 2 (by decide), by decide⟩
+
+/-- `turnWf_of_bcTurns`: for `exSP` (periodic along `a`) the plane of axes 0 and 1 — both names single lower-case
+characters — needs nothing but the well-formedness of the mesh -/
+example : TurnWf exSP 0 1 :=
+  turnWf_of_bcTurns exSP 0 1 exSP_wf (by decide) (by decide) (by decide) (Or.inl ⟨by decide, by decide, lower_a, lower_b⟩)
 
 end DFV.C05
